@@ -190,7 +190,33 @@ def _zero(op):
     return SymTensor.from_elem(Size(sizes), dt, lambda idx: z3.RealVal(0))
 
 
+def _interp(op):
+    """W_l D(K) W_r^T with W[r, idx[r, k]] += val[r, k] (duplicates accumulate); interpolation width concrete"""
+    K = D(op._args[0])
+    li, lv, ri, rv = op._args[1:5]
+    wl = sym.concrete(li.shape[-1]) if not isinstance(li.shape[-1], builtins.int) else li.shape[-1]
+    wr = sym.concrete(ri.shape[-1]) if not isinstance(ri.shape[-1], builtins.int) else ri.shape[-1]
+    if wl is None or wr is None:
+        raise sym.Unsupported("symbolic interpolation width")
+    batch = _bshape(K.shape[:-2], li.shape[:-2], ri.shape[:-2])
+    ke, ksh = K.elem_fn(), K.shape
+    lie, lve, rie, rve = li.elem_fn(), lv.elem_fn(), ri.elem_fn(), rv.elem_fn()
+
+    def elem(idx):
+        b, i, j = tuple(idx[:-2]), idx[-2], idx[-1]
+        tot = None
+        for a in range(wl):
+            for c in range(wr):
+                la = O.bidx(li.shape[:-2], b) + (i, z3.IntVal(a))
+                rc = O.bidx(ri.shape[:-2], b) + (j, z3.IntVal(c))
+                term = lve(O.bidx(lv.shape[:-2], b) + (i, z3.IntVal(a))) * ke(O.bidx(ksh[:-2], b) + (lie(la), rie(rc))) * rve(O.bidx(rv.shape[:-2], b) + (j, z3.IntVal(c)))
+                tot = term if tot is None else tot + term
+        return tot
+    return SymTensor.from_elem(batch + (li.shape[-2], ri.shape[-2]), K.dtype, elem)
+
+
 _TABLE = {
+    "InterpolatedLinearOperator": _interp,
     "DenseLinearOperator": _dense,
     "DiagLinearOperator": _diag,
     "ConstantDiagLinearOperator": _constdiag,
